@@ -1,11 +1,12 @@
 /-
-  C01 for the yearly filler, part 1 (layer L2): the date conditions of `YearlyInst` (`YlyDate`), the combinations of
-  BYxxx parts covered (`YlySup`), what the filler sets up (`ylyCtx_fields`), and the year's candidate set for a date,
-  taken apart along the code's cascade (`ylyCand_mem`, `ylyCand0_mem`).
+  C01 for the yearly filler, part 1 (layer L2): the date conditions of `YearlyInst` (`YlyDate`), the rules covered
+  (`YlySup`), what the filler sets up (`ylyCtx_fields`), and the year's candidate set for a date, taken apart along
+  the code's cascade (`ylyCand0_mem`, `ylyCand1_mem`, and `lim_cand` on top: `ylyCand_lim`).
 -/
 import Echse.Lemmas.RrCandRfc10
 import Echse.Lemmas.RrCandRfc7
 import Echse.Lemmas.RrCandRfc8
+import Echse.Lemmas.RrCandRfc13
 namespace Echse.Lemmas.RrYlyRfc
 open Echse.Rrule Echse.Instant Echse.Spec.RrOk Echse.Lemmas.RrCandOk Echse.Spec.Rfc Echse.Lemmas.RrRfc
 open Echse.Lemmas.RrCandRfc Echse.Lemmas.RrYlyOk Echse.Spec.Cal Echse.Spec.RuleExt Echse.Lemmas.RrMlyRfc
@@ -14,7 +15,7 @@ open Echse.Lemmas.RrCandRfc Echse.Lemmas.RrYlyOk Echse.Spec.Cal Echse.Spec.RuleE
 def YlyDate (r : Rule) (ds x : Inst) : Prop :=
   monthOk r x ∧ (r.wk = [] ∨ weeknoOk r x) ∧ ydayOk r x ∧ mdayOk r x ∧
   (if r.dow ≠ [] then
-     (if r.doy ≠ [] ∨ r.dom ≠ [] then bydayLimit r x
+     (if r.doy ≠ [] ∨ r.dom ≠ [] then (if r.mon ≠ [] then bydayInMonth r x else bydayInYear r x)
       else if r.wk ≠ [] then bydayLimit r x
       else if r.mon ≠ [] then bydayInMonth r x
       else bydayInYear r x)
@@ -25,20 +26,16 @@ def YlyDate (r : Rule) (ds x : Inst) : Prop :=
 /-- BYDAY has plain weekdays only -/
 def Plain (r : Rule) : Prop := ∀ t ∈ r.dow, 1 ≤ t ∧ t ≤ 7
 
-/-- the combinations of BYxxx parts covered (the others the code unites where the specification intersects) -/
-def YlyCombo (r : Rule) : Prop :=
-  (r.wk = [] ∧ r.doy = [] ∧ r.dow = [] ∧ r.dom = []) ∨                          -- nothing, or BYMONTH alone
-  (r.wk = [] ∧ r.doy = [] ∧ r.dom ≠ [] ∧ Plain r) ∨                             -- BYMONTHDAY (BYMONTH, BYDAY limit)
-  (r.wk = [] ∧ r.doy ≠ [] ∧ r.dom = [] ∧ r.mon = [] ∧ Plain r) ∨                -- BYYEARDAY (BYDAY limits)
-  (r.wk = [] ∧ r.doy = [] ∧ r.dom = [] ∧ r.dow ≠ []) ∨                          -- BYDAY, with or without BYMONTH
-  (r.wk ≠ [] ∧ r.doy = [] ∧ r.dom = [] ∧ r.mon = [] ∧ Plain r)                  -- BYWEEKNO, with or without BYDAY
-
+/-- the YEARLY rules covered: no BYEASTER (not in RFC 5545); BYMONTHDAY and BYMONTH as the parser's bit sets hand them
+out; ordinals of BYDAY from -53 on (`ycw_get_yday` wraps around at -54); and BYDAY next to BYWEEKNO (without
+BYYEARDAY / BYMONTHDAY) has plain weekdays only — RFC 5545 forbids numbered BYDAY entries with BYWEEKNO, the code
+skips them there while the specification reads them as plain weekdays -/
 structure YlySup (r : Rule) : Prop where
   easter : r.easter = []
   domLen : r.dom.length ≤ 62
   monLen : r.mon.length ≤ 12
   ord : ∀ t ∈ r.dow, -53 ≤ t / 8
-  combo : YlyCombo r
+  wkPlain : r.wk ≠ [] → r.doy = [] → r.dom = [] → Plain r
 
 theorem isEmpty_iff {α : Type} (l : List α) : l.isEmpty = true ↔ l = [] := List.isEmpty_iff
 
@@ -47,7 +44,7 @@ theorem ylyCtx_fields (r : Rule) (p : Inst) (nti : Nat) (hs : YlySup r) (hp : Wf
     (ylyCtxOf r p nti).r = r ∧ (ylyCtxOf r p nti).wdMask = wdMaskOf r.dow ∧
     (ylyCtxOf r p nti).ms = (if r.mon = [] ∧ r.wk = [] ∧ r.dow = [] ∧ r.doy = [] ∧ r.dom = [] then [p.m] else r.mon) ∧
     (ylyCtxOf r p nti).ds = (if r.dom = [] ∧ r.wk = [] ∧ r.dow = [] ∧ r.doy = [] then [(p.d : Int)] else r.dom) ∧
-    (ylyCtxOf r p nti).pdow = (if r.dow = [] ∧ r.wk ≠ [] ∧ r.mon = [] ∧ r.dom = [] ∧ r.doy = [] then
+    (ylyCtxOf r p nti).pdow = (if r.dow = [] ∧ r.wk ≠ [] ∧ r.dom = [] ∧ r.doy = [] then
       [(ymdGetWday p.y p.m p.d : Int)] else []) := by
   have hm := hp.month
   have hd := hp.day.1
@@ -80,56 +77,73 @@ theorem ylyCtx_fields (r : Rule) (p : Inst) (nti : Nat) (hs : YlySup r) (hp : Wf
         simp only [c1, List.isEmpty_nil, List.isEmpty_iff, he, true_and, and_true, ne_eq]
         rw [if_neg]; intro h; exact this ⟨h.1.1, h.1.2.1, h.1.2.2⟩
       · simp [c1]
-  · by_cases c : r.dow = [] ∧ r.wk ≠ [] ∧ r.mon = [] ∧ r.dom = [] ∧ r.doy = []
-    · obtain ⟨c1, c2, c3, c4, c5⟩ := c
+  · by_cases c : r.dow = [] ∧ r.wk ≠ [] ∧ r.dom = [] ∧ r.doy = []
+    · obtain ⟨c1, c2, c4, c5⟩ := c
       have h0 : wdMaskOf ([] : List Int) = 0 := rfl
-      simp [c1, c2, c3, c4, c5, he, h0]; omega
+      simp [c1, c2, c4, c5, he, h0]; omega
     · rw [if_neg c]
       rw [if_neg]
       intro h
       apply c
-      obtain ⟨h1, h2, h3, h4, h5, _, _⟩ := h
+      obtain ⟨h1, h2, h4, h5, _, _⟩ := h
       have hwk : r.wk ≠ [] := by
         intro e; rw [e] at h2; exact absurd h2 (by decide)
       have hdoy : r.doy = [] := List.isEmpty_iff.mp h5
       have hdow := hwm.1 h1
-      by_cases cm : r.mon = []
-      · by_cases cd : r.dom = []
-        · exact ⟨hdow, hwk, cm, cd, hdoy⟩
-        · exfalso
-          simp [cd] at h4
+      by_cases cd : r.dom = []
+      · exact ⟨hdow, hwk, cd, hdoy⟩
       · exfalso
-        simp [cm] at h3
+        simp [cd] at h4
 
-/-- the weekday limit the BYMONTHDAY / BYYEARDAY builders apply (`wd_mask >> 1`) -/
-def WLim (wdMask : Nat) (x : Inst) : Prop := wdMask >>> 1 = 0 ∨ bit wdMask (wdayOf (dayOf x)) = true
-/-- … and the one `fill_yly_ymd_all_m` / `fill_yly_ymd_all_d` apply (`wd_mask` itself) -/
+/-- the BYDAY limit the BYMONTHDAY / BYYEARDAY builders apply (`dow_limit_p`), for the date `x` -/
+def DLim (r : Rule) (wdMask : Nat) (x : Inst) (mp : Bool) : Prop :=
+  DLimB r.dow wdMask x.y x.m x.d (wdayOf (dayOf x)) mp
+/-- … and the one `fill_yly_ymd_all_d` applies (the plain weekdays of `wd_mask`) -/
 def WLim0 (wdMask : Nat) (x : Inst) : Prop := wdMask = 0 ∨ bit wdMask (wdayOf (dayOf x)) = true
 
-/-- the year's candidates: the first part, the BYYEARDAY part, the BYMONTH / BYMONTHDAY part -/
-theorem ylyCand_mem (c : YlyCtx) (he : c.r.easter = []) (x : Inst) (hx : DateIn x)
+/-- the year's candidates before `lim_cand`: the first part, the BYYEARDAY part, the BYMONTH / BYMONTHDAY part -/
+theorem ylyCand1_mem (c : YlyCtx) (he : c.r.easter = []) (x : Inst) (hx : DateIn x)
     (hms : ∀ m ∈ c.ms, 1 ≤ m ∧ m ≤ 12) (hds : ∀ dd ∈ c.ds, -31 ≤ dd ∧ dd ≤ 31)
     (hdoy : ∀ n ∈ c.r.doy, n ≠ 0 ∧ -366 ≤ n ∧ n ≤ 366) :
-    packCand x.m x.d ∈ ylyCand c x.y ↔
-      (packCand x.m x.d ∈ ylyCand0 c x.y ∨ (YdaySel c.r.doy x ∧ WLim c.wdMask x)) ∨
+    packCand x.m x.d ∈ ylyCand1 c x.y ↔
+      (packCand x.m x.d ∈ ylyCand0 c x.y ∨ (YdaySel c.r.doy x ∧ DLim c.r c.wdMask x (decide (c.ms.length > 0)))) ∨
       (if c.ms.length = 0 ∧ c.ds.length = 0 then False
-       else if c.ms.length = 0 then MdaySel c.ds x ∧ WLim0 c.wdMask x
+       else if c.ms.length = 0 then MdaySel c.ds x ∧ DLim c.r c.wdMask x false
        else if c.ds.length = 0 then x.m ∈ c.ms ∧ WLim0 c.wdMask x
-       else x.m ∈ c.ms ∧ MdaySel c.ds x ∧ WLim c.wdMask x) := by
-  rw [ylyCand_eq]
+       else x.m ∈ c.ms ∧ MdaySel c.ds x ∧ DLim c.r c.wdMask x true) := by
+  unfold ylyCand1
   dsimp only
   have hee : ¬ ((!c.r.easter.isEmpty) = true) := by rw [he]; decide
   rw [if_neg hee]
-  have hyd := mem_yly_yd_date (ylyCand0 c x.y) c.r.doy c.wdMask x hx hdoy
+  have hyd := mem_yly_yd_date (ylyCand0 c x.y) c.r.doy c.r.dow c.wdMask (decide (c.ms.length > 0)) x hx hdoy
   by_cases c1 : c.ms.length = 0 ∧ c.ds.length = 0
-  · rw [if_pos c1, if_pos c1, hyd]; simp [WLim]
+  · rw [if_pos c1, if_pos c1, hyd]; simp [DLim]
   rw [if_neg c1, if_neg c1]
   by_cases c2 : c.ms.length = 0
-  · rw [if_pos c2, if_pos c2, mem_yly_ymdAllM_date _ c.ds c.wdMask x hx hds, hyd]; rfl
+  · rw [if_pos c2, if_pos c2, mem_yly_ymdAllM_date _ c.ds c.r.dow c.wdMask x hx hds, hyd]; rfl
   rw [if_neg c2, if_neg c2]
   by_cases c3 : c.ds.length = 0
   · rw [if_pos c3, if_pos c3, mem_yly_ymdAllD_date _ c.ms c.wdMask x hx hms, hyd]; rfl
-  rw [if_neg c3, if_neg c3, mem_yly_ymd_date _ c.ms c.ds c.wdMask x hx hms hds, hyd]; rfl
+  rw [if_neg c3, if_neg c3, mem_yly_ymd_date _ c.ms c.ds c.r.dow c.wdMask x hx hms hds, hyd]; rfl
+
+/-- the year's candidates: `lim_cand` on top when BYWEEKNO or BYYEARDAY is there -/
+theorem ylyCand_lim (c : YlyCtx) (he : c.r.easter = []) (x : Inst) (hx : DateIn x)
+    (hwk : ∀ w ∈ c.r.wk, w ≠ 0 ∧ -53 ≤ w ∧ w ≤ 53) :
+    packCand x.m x.d ∈ ylyCand c x.y ↔
+      (if c.r.wk ≠ [] ∨ c.r.doy ≠ [] then
+        packCand x.m x.d ∈ ylyCand1 c x.y ∧ (c.r.mon = [] ∨ x.m ∈ c.r.mon) ∧ (c.r.dom = [] ∨ MdaySel c.r.dom x) ∧
+          (c.r.doy = [] ∨ YdaySel c.r.doy x) ∧ (c.r.wk = [] ∨ (PdowOk c.pdow x ∧ weeknoOk { wk := c.r.wk } x))
+       else packCand x.m x.d ∈ ylyCand1 c x.y) := by
+  rw [ylyCand_eq]
+  have e : (c.r.easter.isEmpty = true ∧ ((!c.r.wk.isEmpty) = true ∨ (!c.r.doy.isEmpty) = true)) ↔
+      (c.r.wk ≠ [] ∨ c.r.doy ≠ []) := by
+    rw [he]
+    cases c.r.wk <;> cases c.r.doy <;> simp
+  by_cases cc : c.r.wk ≠ [] ∨ c.r.doy ≠ []
+  · rw [if_pos (e.2 cc), if_pos cc, limCand_mem _ _ _ _ _ _ x hx hwk]
+  · rw [if_neg (fun h => cc (e.1 h)), if_neg cc]
+
+theorem weeknoOk_wk (r : Rule) (x : Inst) : weeknoOk { wk := r.wk } x ↔ weeknoOk r x := Iff.rfl
 
 /-- the plain weekdays of BYDAY, as the builders test them -/
 theorem plain_part (r : Rule) (hr : WfRule r) (x : Inst) :
@@ -227,44 +241,40 @@ theorem ylyCand0_mem (c : YlyCtx) (x : Inst) (hx : DateIn x) (hr : WfRule c.r) (
 
 /-! ### the limits in the specification's words -/
 
-theorem wlim_plain (r : Rule) (hr : WfRule r) (hpl : Plain r) (x : Inst) :
-    WLim (wdMaskOf r.dow) x ↔ (r.dow = [] ∨ bydayLimit r x) := by
+theorem dlim_iff (r : Rule) (hr : WfRule r) (hord : ∀ t ∈ r.dow, -53 ≤ t / 8) (x : Inst) (hx : DateIn x) (mp : Bool) :
+    DLim r (wdMaskOf r.dow) x mp ↔ (r.dow = [] ∨ (if mp = true then bydayInMonth r x else bydayInYear r x)) := by
+  unfold DLim
+  cases mp with
+  | true => simp only [if_true]; exact dlim_month r hr x hx
+  | false => simp only [Bool.false_eq_true, if_false]; exact dlim_year r hr hord x hx
+
+/-- the plain weekdays as a limit within a month -/
+theorem wlim0_month (r : Rule) (hr : WfRule r) (x : Inst) (h : WLim0 (wdMaskOf r.dow) x) :
+    r.dow = [] ∨ bydayInMonth r x := by
   have hwdr := wdayOf_range (dayOf x)
-  unfold WLim bydayLimit
+  rcases h with h | h
+  · left
+    apply Classical.byContradiction; intro c
+    exact (wdMask_ne_zero r).2 c h
+  · obtain ⟨t, ht, a1, a2⟩ := (mask_bit_iff r hr _ hwdr).1 h
+    exact Or.inr ⟨t, ht, a2, Or.inl a1⟩
+
+theorem wlim0_plain (r : Rule) (hr : WfRule r) (hpl : Plain r) (x : Inst) :
+    WLim0 (wdMaskOf r.dow) x ↔ (r.dow = [] ∨ bydayLimit r x) := by
+  have hwdr := wdayOf_range (dayOf x)
+  unfold WLim0 bydayLimit
   rw [mask_bit_iff r hr _ hwdr]
   constructor
   · rintro (h | ⟨t, ht, _, h2⟩)
     · left
-      have := (wdMask_shr r).1 h
-      apply List.eq_nil_iff_forall_not_mem.2
-      intro t ht
-      have : t ∈ plainDays r := (mem_plainDays r t).2 ⟨ht, hpl t ht⟩
-      rw [‹plainDays r = []›] at this; cases this
+      apply Classical.byContradiction; intro c
+      exact (wdMask_ne_zero r).2 c h
     · exact Or.inr ⟨t, ht, h2⟩
   · rintro (h | ⟨t, ht, h2⟩)
     · left; rw [h]; rfl
     · right
       have := hpl t ht
       exact ⟨t, ht, by unfold ordOf; omega, h2⟩
-
-theorem wlim0_plain (r : Rule) (hr : WfRule r) (hpl : Plain r) (x : Inst) :
-    WLim0 (wdMaskOf r.dow) x ↔ (r.dow = [] ∨ bydayLimit r x) := by
-  rw [← wlim_plain r hr hpl x]
-  unfold WLim WLim0
-  apply or_congr ?_ Iff.rfl
-  constructor
-  · intro h; rw [h]; rfl
-  · intro h
-    by_cases c : r.dow = []
-    · rw [c]; rfl
-    · exfalso
-      have := (wdMask_shr r).1 h
-      cases hd : r.dow with
-      | nil => exact c hd
-      | cons t ts =>
-        have ht : t ∈ r.dow := by rw [hd]; exact List.mem_cons_self
-        have : t ∈ plainDays r := (mem_plainDays r t).2 ⟨ht, hpl t ht⟩
-        rw [‹plainDays r = []›] at this; cases this
 
 theorem mdaySel_iff (r : Rule) (x : Inst) (h : r.dom ≠ []) : MdaySel r.dom x ↔ mdayOk r x := by
   unfold MdaySel mdayOk; simp [h]
